@@ -189,11 +189,96 @@ func genFlows(g *Rng, tier string) *Plan {
 			k.Deploys[i].CustomRSOwnLast = g.Bool(0.5)
 		}
 	}
+	// custom relay-state functions handing out the application's own tokens, made of whatever a cookie name may be made of - '%' and
+	// what looks like an escape sequence included, as a token made by URL-encoding something has - some of them encodings of others
+	for i := range k.Deploys {
+		if g.Bool(0.3) {
+			k.Deploys[i].CustomRS = true
+			k.Deploys[i].CustomRSValues = genRelayTokens(g, 3+g.Intn(4))
+		}
+	}
 	p.Knobs = mustJSON(k)
 	for _, s := range steps {
 		p.Steps = append(p.Steps, mustJSON(s))
 	}
 	return p
+}
+
+// The characters a cookie name - and so a relay state that names a tracking cookie - may be made of (RFC 6265: an RFC 2616 token).
+const (
+	relayTokenAlnum = "abcdefghijklmnopqrstuvwxyzABCDEFGHIJKLMNOPQRSTUVWXYZ0123456789"
+	relayTokenPunct = "!#$%&'*+-.^_`|~"
+)
+
+// genRelayTokens draws n distinct application tokens of 4-18 characters: letters and digits, the punctuation a token may contain,
+// and escape sequences (%XX); four in ten are a sibling of an earlier one - one character written as an escape sequence, an escape
+// sequence written as the character it stands for, or a letter in the other case. All of them are different cookie names.
+func genRelayTokens(g *Rng, n int) []string {
+	var out []string
+	seen := map[string]bool{}
+	for len(out) < n {
+		var v string
+		if len(out) > 0 && g.Bool(0.4) {
+			v = relayTokenSibling(g, out[g.Intn(len(out))])
+		} else {
+			var sb strings.Builder
+			for m := 4 + g.Intn(12); sb.Len() < m; {
+				switch g.PickW(6, 2, 2) {
+				case 0:
+					sb.WriteByte(relayTokenAlnum[g.Intn(len(relayTokenAlnum))])
+				case 1:
+					sb.WriteByte(relayTokenPunct[g.Intn(len(relayTokenPunct))])
+				default:
+					fmt.Fprintf(&sb, Pick(g, "%%%02X", "%%%02X", "%%%02x"), g.Intn(256))
+				}
+			}
+			v = sb.String()
+		}
+		if !seen[v] {
+			seen[v] = true
+			out = append(out, v)
+		}
+	}
+	return out
+}
+
+func relayTokenSibling(g *Rng, v string) string {
+	switch g.PickW(3, 3, 1) {
+	case 1:
+		// an escape sequence that stands for a character a token may contain, written as that character
+		for i := 0; i+2 < len(v); i++ {
+			if v[i] != '%' {
+				continue
+			}
+			if c, err := url.PathUnescape(v[i : i+3]); err == nil && len(c) == 1 && strings.Contains(relayTokenAlnum+relayTokenPunct, c) {
+				return v[:i] + c + v[i+3:]
+			}
+		}
+	case 2:
+		for i := 0; i < len(v); i++ {
+			if c := v[i]; c >= 'a' && c <= 'z' && (i < 1 || v[i-1] != '%') && (i < 2 || v[i-2] != '%') {
+				return v[:i] + strings.ToUpper(v[i:i+1]) + v[i+1:]
+			}
+		}
+	}
+	i := g.Intn(len(v))
+	return v[:i] + fmt.Sprintf(Pick(g, "%%%02X", "%%%02X", "%%%02x"), v[i]) + v[i+1:]
+}
+
+// pctEscaped: does s contain an escape sequence (%XX)? pctSiblings: are a and b different strings that are the same after, or become
+// one another by, percent-decoding? (evidence only: to the middleware relay states are opaque, and so they are to the oracle)
+func pctEscaped(s string) bool {
+	u, err := url.PathUnescape(s)
+	return err == nil && u != s
+}
+
+func pctSiblings(a, b string) bool {
+	if a == b {
+		return false
+	}
+	ua, ea := url.PathUnescape(a)
+	ub, eb := url.PathUnescape(b)
+	return (ea == nil && ua == b) || (eb == nil && ub == a) || (ea == nil && eb == nil && ua == ub)
 }
 
 // longURL is the URL a start step asks for: st.URL, made long as the step says.
@@ -348,6 +433,17 @@ func execFlows(t *testing.T, p *Plan) *Result {
 				if fl.reqID == ar.ID {
 					res.violate(si, "request-id-reused", "C17/flow-start/request-id-reused", "every login flow is tracked under a request ID of its own", "the request ID of flow "+fmt.Sprint(fi)+" again", "a response to either flow then completes in the browser that holds the other's cookie")
 					return res
+				}
+			}
+			if len(d.conf.CustomRSValues) > 0 && d.rsCount > 0 && strings.Contains(ar.RelayState, d.conf.CustomRSValues[min(d.rsCount, len(d.conf.CustomRSValues))-1]) {
+				res.probe("flow-started-under-application-token")
+				if pctEscaped(ar.RelayState) {
+					res.probe("flow-started-under-relay-state-with-escape-sequence")
+				}
+				for _, fl := range flows {
+					if fl.b == st.B && fl.sp == st.SP && !fl.completed && pctSiblings(fl.index, ar.RelayState) {
+						res.probe("pending-flows-under-relay-states-that-are-encodings-of-one-another")
+					}
 				}
 			}
 			b.store(u.Host, rep.Cookies)
@@ -658,6 +754,9 @@ func execFlows(t *testing.T, p *Plan) *Result {
 				if len(wantLoc) > 160 {
 					res.probe("flow-completed-at-long-url")
 				}
+				if len(d.conf.CustomRSValues) > 0 && pctEscaped(relay) {
+					res.probe("flow-completed-under-relay-state-with-escape-sequence")
+				}
 				if rep.Code != http.StatusFound {
 					res.violate(si, "session-without-redirect", "C17/session-without-redirect", "302", fmt.Sprint(rep.Code), "")
 					return res
@@ -776,7 +875,7 @@ func simplifyFlows(p *Plan) []*Plan {
 func init() {
 	register(&Profile{
 		ID: "C17", Name: "flows", Level: "exploration",
-		Rule: "histories of 4-14 actions over {start flow at URL u (<=3 pending, 1-2 browsers, 1-2 deployments http/https, redirect/POST binding, custom relay-state function, RSA/ECDSA key), foreign IdP answers flow k for user x (or unsolicited), deliver response with jar policy in {faithful, subset, other-flow-only, none, renamed, swapped, expired-kept, forged, session-token-as-tracking-cookie, other browser's jar, faithful plus a cookie planted under another name with a foreign key} and RelayState in {echoed, other flow's, absent, arbitrary URL, the planted cookie's index}, replay, advance clock around the tracking lifetime (= MaxIssueDelay knob), visit protected page}; one run in five is fault-free; non-trivial = at least one delivery with an unfaithful jar/RelayState/browser or a replay; distinct = distinct abstract log; start URLs include percent-encoded structural characters in the path; targeted tails: (a) completed login, then an unsolicited response with the session token re-filed as a tracking cookie, (b) the ACS sees and refuses the tracking cookie early, the IdP answers after the lifetime and the stale cookie is still presented; clearing any tracking cookie other than the one named by the RelayState is a violation; about one start in seven asks for a long URL (0.3-9 kB of query value or 0.3-6 kB of path segment) and has to come back to exactly that; three deployments in ten have a custom relay-state function returning 48-400 byte values that differ in their first or only in their last bytes, and the RelayState handed to the IdP has to name the flow's tracking cookie",
+		Rule: "histories of 4-14 actions over {start flow at URL u (<=3 pending, 1-2 browsers, 1-2 deployments http/https, redirect/POST binding, custom relay-state function, RSA/ECDSA key), foreign IdP answers flow k for user x (or unsolicited), deliver response with jar policy in {faithful, subset, other-flow-only, none, renamed, swapped, expired-kept, forged, session-token-as-tracking-cookie, other browser's jar, faithful plus a cookie planted under another name with a foreign key} and RelayState in {echoed, other flow's, absent, arbitrary URL, the planted cookie's index}, replay, advance clock around the tracking lifetime (= MaxIssueDelay knob), visit protected page}; one run in five is fault-free; non-trivial = at least one delivery with an unfaithful jar/RelayState/browser or a replay; distinct = distinct abstract log; start URLs include percent-encoded structural characters in the path; targeted tails: (a) completed login, then an unsolicited response with the session token re-filed as a tracking cookie, (b) the ACS sees and refuses the tracking cookie early, the IdP answers after the lifetime and the stale cookie is still presented; clearing any tracking cookie other than the one named by the RelayState is a violation; about one start in seven asks for a long URL (0.3-9 kB of query value or 0.3-6 kB of path segment) and has to come back to exactly that; three deployments in ten have a custom relay-state function returning 48-400 byte values that differ in their first or only in their last bytes, and the RelayState handed to the IdP has to name the flow's tracking cookie; three deployments in ten have a custom relay-state function handing out 3-6 application tokens of 4-18 characters drawn from everything a cookie name may contain (letters, digits, !#$%&'*+-.^_`|~, escape sequences %XX), four in ten of them a sibling of an earlier one (a character written as an escape sequence, an escape sequence written out, a letter in the other case): echoed byte for byte, each names its own flow only",
 		Gen:  genFlows, Exec: execFlows, Simplify: simplifyFlows,
 		RunsQuick: 2500, RunsThorough: 250000,
 		Assumptions: []string{"a presented cookie is authentic for flow i iff it carries exactly the value the SP minted for flow i under exactly that name (harness bookkeeping, no token decoding in the oracle)", "tracking age within +-2 s of the lifetime is a declared don't-care (JWT instants are whole seconds)", "the sufficient direction (must accept) is asserted only for faithful jar + echoed RelayState in the originating browser, as the statement does", "tracking lifetime is taken from saml.MaxIssueDelay as drawn for the run, not from the tracker's own field", "the browser stub keeps cookies of any size (RFC 6265 obliges user agents to keep at least 4096 bytes per cookie, it sets no upper limit); the IdP stub echoes a RelayState of any length"},
